@@ -5,7 +5,8 @@ usage: seeded_check.py <id> [Cxx ...]   (default: the property the change target
 import json, os, subprocess, sys, time
 HERE = os.path.dirname(os.path.dirname(os.path.abspath(__file__)))
 mid = sys.argv[1]
-props = sys.argv[2:] or [mid[:3]]
+import re
+props = sys.argv[2:] or [re.search(r"C\d\d", mid).group(0)]
 tier = os.environ.get("SEEDED_TIER", "quick")
 d = os.path.join(HERE, "seeded", mid)
 assert subprocess.run(["git", "-C", "/repo", "status", "--porcelain", "--untracked-files=no"], stdout=subprocess.PIPE, text=True).stdout.strip() == "", "/repo not clean"
